@@ -610,6 +610,33 @@ func c11(c *h.Ctx) {
 		c.Case(fmt.Sprintf("stream/frames=%d", k), in+fmt.Sprint(len(data)), true)
 	}
 
+	// 5b. LONG streams: well over 64 KiB of frames behind the one being decoded (buffer lengths do not fit 16 bits),
+	// sizes chosen so that (bytes remaining) mod 65536 is smaller than a frame now and then
+	for round := 0; round < c.N(2, 12); round++ {
+		nfr := 110 + r.Intn(40)
+		size := r.Pick(700, 1000, 333, 8184)
+		if size == 8184 {
+			nfr = 12 + r.Intn(6)
+		}
+		var data []byte
+		var raws [][]byte
+		cfg := aacCfg{2, uint8(1 + r.Intn(12)), uint8(1 + r.Intn(7))}
+		for j := 0; j < nfr; j++ {
+			raw := h.LCGBytes(size-r.Intn(3), uint32(round*1000+j))
+			_, w := adtsEnc(cfg, raw)
+			raws = append(raws, raw)
+			data = append(data, w...)
+		}
+		in := fmt.Sprintf("adts.stream 0.0.0 long: %d library frames of ~%d bytes (%d bytes in all), cfg %s", nfr, size, len(data), cfg)
+		res, got, _ := adtsStream(zero, data)
+		ok := strings.HasPrefix(res, "ok") && len(got) == nfr
+		for j := 0; ok && j < nfr; j++ {
+			ok = bytes.Equal(got[j], raws[j])
+		}
+		c.Hold(ok, "adts.concat", in, h.Trunc(res, 120)+fmt.Sprintf(" (%d frames decoded)", len(got)), fmt.Sprintf("%d frames", nfr))
+		c.Case("stream/long", in, true)
+	}
+
 	// 6. malformed stream: every truncation, header mutations, length lies, random bytes.
 	mal := func(bucket string, st aacCfg, data []byte) {
 		in := fmt.Sprintf("adts.dec %s %s", st, h.Hex(data))
